@@ -78,9 +78,13 @@ class Till(Signal):
         Signal.__init__(self, name=str(timeout))
 
         with Till.locker:
-            if timeout != None:
-                Till.next_ping = min(Till.next_ping, timeout)
-            Till.new_timers.append(TodoItem(timeout, ref(self)))
+            if enabled:
+                if timeout != None:
+                    Till.next_ping = min(Till.next_ping, timeout)
+                Till.new_timers.append(TodoItem(timeout, ref(self)))
+                return
+        # TIMERS WERE SHUTDOWN WHILE WE WERE MAKING THIS ONE, NOTHING WILL EVER TRIGGER IT
+        self.go()
 
 
 def daemon(please_stop):
